@@ -165,10 +165,11 @@ fn gen_value(r: &mut Rng, path: &str, canon: bool, base: &SPDC) -> f64 {
       }
     }
     (_, "theta_external_deg") => {
+      // sweeps symmetric about the pump direction: the setter takes |v|
       if canon {
-        d4(r, 0., 60.)
+        d4(r, -60., 60.)
       } else {
-        d4(r, -60., 0.)
+        d4(r, -89., 89.)
       }
     }
     (_, "phi_deg") => {
@@ -336,8 +337,22 @@ fn expect_field(pre: &SPDC, swept: &SPDC, path: &str, v: f64, got: &Value, distu
       if !rounded_of(g, internal) {
         return Err(format!("got={:?} internal_deg={:?}", g, internal));
       }
-      if !disturbed && (back - v).abs() > 1e-4 {
-        return Err(format!("external_readback_deg={:?} requested={:?}", back, v));
+      // the stored internal angle refracts back to |v| …
+      if !disturbed && (back - v.abs()).abs() > 1e-4 {
+        return Err(format!("external_readback_deg={:?} requested_abs={:?}", back, v.abs()));
+      }
+      // … and is what `Beam::set_theta_external` stores on the beam the setter was applied to
+      let pb: &Beam = if path.starts_with("signal") { &pre.signal } else { &pre.idler };
+      let mut probe = pb.clone();
+      if guard(|| {
+        probe.set_theta_external(v * DEG, &pre.crystal_setup);
+      })
+      .is_some()
+      {
+        let want = probe.theta_internal().value_unsafe;
+        if want != b.theta_internal().value_unsafe {
+          return Err(format!("internal_rad={:e} set_theta_external_rad={:e}", b.theta_internal().value_unsafe, want));
+        }
       }
       Ok(())
     }
@@ -936,6 +951,43 @@ pub fn run(ctx: &mut Ctx) {
     "crystal.theta_deg", "crystal.length_um", "crystal.temperature_c", "signal.theta_deg", "signal.wavelength_nm", "idler.wavelength_nm",
     "signal.waist_um", "idler.waist_um", "pump.waist_um", "pump.bandwidth_nm", "signal.waist_position_um", "signal.frequency_thz", "deff_pm_per_volt",
   ];
+  // dark sweep cells whose normalisation is not finite must read 0, exactly as for a single setup:
+  // (a) signal past total internal reflection with a signal wavelength outside the pump band,
+  // (b) zero pump bandwidth with a signal wavelength that does not conserve energy
+  for (name, base) in bases.iter().take(if ctx.thorough { bases.len() } else { 4 }) {
+    let ls = base.signal.vacuum_wavelength().value_unsafe * 1e9;
+    for (p1, x, p2, y) in [
+      ("signal.theta_deg", (50.0, 85.0, 3usize), "signal.wavelength_nm", (ls * 1.05, ls * 1.2, 2usize)),
+      ("signal.wavelength_nm", (ls * 1.07, ls * 1.3, 2), "signal.theta_deg", (60.0, -70.0, 2)),
+      ("pump.bandwidth_nm", (0.0, 0.0, 1), "signal.wavelength_nm", (ls * 1.03, ls * 1.1, 3)),
+      ("signal.wavelength_nm", (ls, ls * 1.1, 3), "pump.bandwidth_nm", (0.0, 1e-9, 2)),
+    ] {
+      let steps = Steps2D(x, y);
+      let det = format!("base={} p1={} p2={} x={:?} y={:?}", name, p1, p2, x, y);
+      let swept = guard(|| SPDCIter::try_new(base.clone(), p1, p2, steps).map(|it| it.jsi_values(integ)));
+      let want: Option<Vec<f64>> = guard(|| {
+        steps
+          .into_iter()
+          .map(|(v1, v2)| {
+            let mut s = base.clone();
+            apply_by_hand(&mut s, p1, v1);
+            apply_by_hand(&mut s, p2, v2);
+            jsi_center(&s, integ)
+          })
+          .collect()
+      });
+      match (swept, want) {
+        (Some(Ok(a)), Some(b)) => {
+          // exact, NaN only against NaN
+          let ok = a.len() == b.len() && a.iter().zip(b.iter()).all(|(x, y)| x == y || (x.is_nan() && y.is_nan()));
+          ctx.s("C18.values", ok, "sweep/jsi-values-dark-cells", &format!("swept={:?} individually={:?} {}", a, b, det));
+          ctx.count(if b.iter().all(|x| *x == 0.) { "dark-cells/all-zero" } else { "dark-cells/mixed" });
+        }
+        (None, _) => ctx.s("C18.values", false, "sweep/jsi-values-panic", &det),
+        _ => ctx.s("C18.values", false, "sweep/jsi-values-failed", &det),
+      }
+    }
+  }
   let nval = if ctx.thorough { 120 } else { 24 };
   for _ in 0..nval {
     let (name, base) = ctx.rng.pick(&bases).clone();
